@@ -146,9 +146,20 @@ func checkC15() fw.Check {
 	}
 }
 
-type flowSentinel struct{ k int }
+// flowSentinel: one value per failing participant (errors.Is compares identity). In half of the requests all of them
+// read the same - the common real case, every probe hitting "network is unreachable" - so that an aggregation which
+// keys failures by their text loses some.
+type flowSentinel struct {
+	k    int
+	same bool
+}
 
-func (f *flowSentinel) Error() string { return fmt.Sprintf("verif-injected failure of flow %d", f.k) }
+func (f *flowSentinel) Error() string {
+	if f.same {
+		return "verif-injected failure: network is unreachable"
+	}
+	return fmt.Sprintf("verif-injected failure of flow %d", f.k)
+}
 
 func runC15Case(c *fw.Ctx, id string, rq c15Req) {
 	resetProcessState()
@@ -180,6 +191,7 @@ func runC15Case(c *fw.Ctx, id string, rq c15Req) {
 	dist := 4
 	nRun, nE2e := 0, 0
 	sentinels := map[int]*flowSentinel{}
+	sameText := fw.Hash32(id)%2 == 0
 	roles := map[int]string{}
 	env.modelFor = func(k int, e *simEnv) *pathModel {
 		// completion order: per-flow base delay chosen by the permutation index
@@ -211,18 +223,22 @@ func runC15Case(c *fw.Ctx, id string, rq c15Req) {
 		if e.spec.MinTTL == e.spec.MaxTTL {
 			roles[k] = fmt.Sprintf("e2e#%d", nE2e)
 			if contains(rq.failE2e, nE2e) {
-				sentinels[k] = &flowSentinel{k}
+				sentinels[k] = &flowSentinel{k, sameText}
 			}
 			nE2e++
 		} else {
 			roles[k] = fmt.Sprintf("run#%d", nRun)
 			if contains(rq.failRuns, nRun) {
-				sentinels[k] = &flowSentinel{k}
+				sentinels[k] = &flowSentinel{k, sameText}
 			}
 			nRun++
 		}
 		if s := sentinels[k]; s != nil {
-			env.w.PoisonHandle(e.handle, fmt.Errorf("handle of flow %d: %w", k, s))
+			if sameText {
+				env.w.PoisonHandle(e.handle, fmt.Errorf("sendto: %w", s))
+			} else {
+				env.w.PoisonHandle(e.handle, fmt.Errorf("handle of flow %d: %w", k, s))
+			}
 		}
 	}
 	ctx, cancel := context.WithCancel(context.Background())
